@@ -70,6 +70,11 @@ class MH(ProposalBasedSampler):
         elif not isinstance(value, cuqi.distribution.Distribution) and callable(value):
             raise NotImplementedError(fail_msg)
         elif isinstance(value, cuqi.distribution.Distribution) and value.is_symmetric:
+            # is_symmetric describes the symmetry of the distribution about its mean; the random-walk
+            # increments must be symmetric about zero for the acceptance ratio without proposal ratio
+            mean = getattr(value, 'mean', None)
+            if mean is not None and not callable(mean) and np.any(np.asarray(mean) != 0):
+                raise ValueError(fail_msg + " The proposal must be symmetric about zero (zero mean).")
             self._proposal = value
         else:
             raise ValueError(fail_msg)
